@@ -16,6 +16,7 @@
 #include "prng.hpp"
 
 #include <algorithm>
+#include <csetjmp>
 #include <csignal>
 #include <cstdarg>
 #include <cstdio>
@@ -206,8 +207,28 @@ namespace sim
         static CrashState s;
         return s;
     }
+    // a candidate plan tried during shrinking may crash the process under test (e.g. std::vector writing through a null pointer a broken
+    // allocator returned): the candidate then simply "does not reproduce the class", shrinking stops, the violation is reported with the
+    // smallest plan found so far and the worker asks to be restarted, because its state can no longer be trusted.
+    struct ShrinkGuard
+    {
+        sigjmp_buf jb;
+        volatile sig_atomic_t armed = 0;
+        volatile sig_atomic_t crashed = 0;
+    };
+    inline ShrinkGuard& shrink_guard()
+    {
+        static ShrinkGuard g;
+        return g;
+    }
     inline void crash_handler(int sig)
     {
+        if (crash_state().phase == 3 && shrink_guard().armed)
+        {
+            shrink_guard().armed = 0;
+            shrink_guard().crashed = 1;
+            siglongjmp(shrink_guard().jb, 1);
+        }
         char buf[200];
         int n = snprintf(buf, sizeof buf, "\n{\"crash\":{\"check\":\"%s\",\"run\":%llu,\"phase\":%d,\"signal\":%d}}\n",
                          crash_state().check, (unsigned long long)crash_state().run, crash_state().phase, sig);
@@ -220,6 +241,7 @@ namespace sim
         struct sigaction sa;
         memset(&sa, 0, sizeof sa);
         sa.sa_handler = crash_handler;
+        sa.sa_flags = SA_NODEFER; // the handler may leave through siglongjmp during shrinking
         sigemptyset(&sa.sa_mask);
         for (int s : { SIGSEGV, SIGBUS, SIGILL, SIGFPE, SIGABRT })
             sigaction(s, &sa, nullptr);
@@ -232,16 +254,22 @@ namespace sim
         using Plan = typename H::Plan;
         auto fails = [&](const Plan& p) -> bool
         {
+            if (shrink_guard().crashed)
+                return false;
             ++executions;
+            if (sigsetjmp(shrink_guard().jb, 1) != 0)
+                return false; // the candidate crashed the process under test: not the class we are minimising
+            shrink_guard().armed = 1;
             Log l;
             Outcome o = h.execute(p, l);
+            shrink_guard().armed = 0;
             return o.has(target);
         };
         Plan cur = plan0;
         // ddmin on the op list
         size_t n = h.n_ops(cur);
         size_t gran = 2;
-        while (n >= 2 && executions < budget)
+        while (n >= 2 && executions < budget && !shrink_guard().crashed)
         {
             size_t chunk = (n + gran - 1) / gran;
             bool reduced = false;
@@ -269,7 +297,7 @@ namespace sim
             }
         }
         // try removing single ops once more (cheap, catches leftovers)
-        for (size_t k = 0; k < h.n_ops(cur) && h.n_ops(cur) > 1 && executions < budget;)
+        for (size_t k = 0; k < h.n_ops(cur) && h.n_ops(cur) > 1 && executions < budget && !shrink_guard().crashed;)
         {
             std::vector<bool> keep(h.n_ops(cur), true);
             keep[k] = false;
@@ -281,7 +309,7 @@ namespace sim
         }
         // greedy argument simplification to a fixpoint
         bool progress = true;
-        while (progress && executions < budget)
+        while (progress && executions < budget && !shrink_guard().crashed)
         {
             progress = false;
             std::vector<Plan> cands = h.simpler(cur);
@@ -397,9 +425,14 @@ namespace sim
                 uint64_t execs = 0;
                 typename H::Plan small = det ? shrink(h, plan, cls, execs, h.shrink_budget()) : plan;
                 crash_state().phase = 0;
+                const bool poisoned = shrink_guard().crashed != 0;
                 Log l3;
                 l3.keep_text = true;
-                Outcome o3 = h.execute(small, l3);
+                Outcome o3;
+                if (!poisoned)
+                    o3 = h.execute(small, l3);
+                else
+                    o3.violate(cls, o.details[ci] + " (a shrink candidate crashed the process under test; minimisation stopped early)");
                 json::Value v = json::Value::object();
                 v.set("property", H::id());
                 v.set("violation_class", cls);
@@ -430,8 +463,17 @@ namespace sim
                 line.set("violation", v);
                 printf("%s\n", json::dump(line).c_str());
                 fflush(stdout);
+                if (poisoned)
+                {
+                    // state of this process can no longer be trusted: report what was done and ask the driver for a fresh worker
+                    finish(distinct_prefix_for_restart);
+                    printf("{\"restart\":{\"run\":%llu}}\n", (unsigned long long)r);
+                    fflush(stdout);
+                    _exit(75);
+                }
             }
         }
+        std::string distinct_prefix_for_restart;
 
         void finish(const std::string& distinct_prefix)
         {
@@ -577,6 +619,7 @@ namespace sim
             w.max_report = args.max_report;
             w.samples_wanted = args.samples;
             w.want_hashes = args.want_hashes;
+            w.distinct_prefix_for_restart = args.distinct_prefix;
             if (args.cmd == "run")
             {
                 for (uint64_t r = args.first + args.offset; r < args.first + args.count; r += args.stride)
